@@ -98,6 +98,10 @@ class FakeStdin:
         self.mode = "ok"  # ok | block | broken
         self.send_calls = 0
         self.yields = 1  # scheduling points inside one send (emulates a drain that suspends)
+        # optional model of write+drain on a FULL pipe: slow(call_index, data) -> None (not slow) or the virtual
+        # seconds the caller is kept waiting AFTER the bytes were handed to the pipe (float("inf") = forever).
+        # The bytes are recorded at send() time; if the caller is cancelled while waiting they stay recorded.
+        self.slow: Optional[Callable[[int, bytes], Optional[float]]] = None
 
     async def send(self, data: bytes):
         self.send_calls += 1
@@ -107,8 +111,20 @@ class FakeStdin:
             raise anyio.BrokenResourceError
         if self.mode == "block":
             await asyncio.get_running_loop().create_future()  # never completes
+        if self.slow is not None:
+            delay = self.slow(self.send_calls - 1, bytes(data))
+            if delay is not None:
+                self._accept(data)  # the pipe has the bytes ...
+                if delay == float("inf"):
+                    await asyncio.get_running_loop().create_future()  # ... and never drains
+                else:
+                    await asyncio.sleep(delay)  # ... and drains only after a while
+                return
         for _ in range(self.yields):
             await asyncio.sleep(0)
+        self._accept(data)
+
+    def _accept(self, data: bytes):
         self.sends.append(bytes(data))
         self.data += data
         cb = self._proc.on_stdin
